@@ -645,6 +645,7 @@ type c05State struct {
 	scratch  string       // directory for this job's files
 	cases    *int64
 	nontriv  *int64
+	skipped  *int64
 	deadline time.Time
 }
 
@@ -668,6 +669,7 @@ type c05Runner struct {
 	truncated int32
 	phases    []string
 	jobSeq    int64
+	skipped   int64 // jobs that could not be set up for reasons outside the property (noted in the stats)
 }
 
 func c05NewRunner(t *testing.T, budget time.Duration) *c05Runner {
@@ -739,7 +741,7 @@ func (r *c05Runner) runOne(job c05Job, timeout time.Duration) *c05Viol {
 	if err := os.MkdirAll(dir, 0700); err != nil {
 		return &c05Viol{What: "harness: cannot create scratch directory: " + err.Error()}
 	}
-	st := &c05State{scratch: dir, cases: &r.cases, nontriv: &r.nontriv, deadline: r.deadline}
+	st := &c05State{scratch: dir, cases: &r.cases, nontriv: &r.nontriv, skipped: &r.skipped, deadline: r.deadline}
 	ch := make(chan *c05Viol, 1)
 	go func() {
 		defer func() {
@@ -757,6 +759,9 @@ func (r *c05Runner) runOne(job c05Job, timeout time.Duration) *c05Viol {
 		var cur interface{}
 		if p, ok := st.cur.Load().(*interface{}); ok && p != nil {
 			cur = *p
+			if f, ok := cur.(func() interface{}); ok {
+				cur = f()
+			}
 		}
 		// the goroutine is left behind (it may hold a file lock on its own scratch files only)
 		return &c05Viol{What: fmt.Sprintf("the operation did not return within %s (hang)", timeout), Input: cur, Expected: "the call returns", Got: "no return within the watchdog timeout"}
@@ -793,6 +798,9 @@ func c05WriteJSON(path string, v interface{}) {
 }
 
 func (r *c05Runner) writeStats(boundText string, exhaustive bool) {
+	if n := atomic.LoadInt64(&r.skipped); n > 0 {
+		boundText += fmt.Sprintf(" [%d jobs SKIPPED: index could not be built/opened]", n)
+	}
 	if atomic.LoadInt32(&r.truncated) != 0 {
 		boundText += " [TRUNCATED by time budget]"
 		exhaustive = false
